@@ -5,6 +5,8 @@ Engine E1 (all histories of <= d turns over a per-turn alphabet) x E4 (store fau
 Per-turn alphabet: committed(approved list, store fault plan) | kill-switch turn (run_turn entry only).
   approved list  in {[], [d1], [d1,d2], [d1,d2,d3]}  (canonical order, as the meta-filter emits them)
   fault plan     in {ok, ok-without-reporting-counts} + {batch raises and S of the per-delta calls raise : S subset of approved}
+  store capability (own leg, see cap_alphabet): the state's store for that turn offers the batch API (above) | is a
+                 read-only view without `apply_deltas` | carries a non-callable `apply_deltas` | is None | key missing
 Settings: snapshot cadence n in {1,2,3} x cache_bust_mode in {on-apply, none} x namespaces x initial version x ctx shape
   x key-presence shape of the t4 section (every key explicit | keys missing, the section then denotes its validated
   normal form: see absent_menu).
@@ -88,6 +90,69 @@ class RecStore(InMemoryGraphStore):
         if self.plan[0] == "okquiet":
             return None  # a store that succeeds without reporting counts
         return {"edits": len(deltas), "clamps": 0}
+
+
+class StoreView:
+    """The recording store seen through a view that offers everything EXCEPT a usable batch write API (a read-only
+    replica: graphs, `.w`, export_state() stay reachable, so T1/T2 and the snapshot writer work as usual).
+    variant "absent": no `apply_deltas` attribute at all;  "noncallable": the attribute exists and is None."""
+
+    def __init__(self, inner, variant):
+        object.__setattr__(self, "_inner", inner)
+        if variant == "noncallable":
+            object.__setattr__(self, "apply_deltas", None)
+
+    def __getattr__(self, name):
+        if name == "apply_deltas" or name == "_inner" or (name.startswith("__") and name.endswith("__")):
+            raise AttributeError(name)
+        return getattr(object.__getattribute__(self, "_inner"), name)
+
+
+# ---- store capability of a committed turn -------------------------------------------------------------------
+# The statement's version / cadence / no-abort clauses hold for EVERY committed turn, whatever the state's store can do.
+# Besides the store with the batch API the engine documents two more situations ("nothing to apply" when the state
+# has no store, "no known API" when the store has no callable apply_deltas).  Letters ("noapi", variant):
+#   absent | noncallable : StoreView above;  nostore : state["store"] is None;  nokey : the state has no "store" key.
+# Decided on such a turn: no exception escapes, version +1 exactly, ApplyResult agrees with the state, snapshot iff
+# cadence, t4/apply records emitted once, nothing is invalidated that is not configured / when busting is off, the
+# recording store receives no call.  NOT decided: whether the configured namespaces are invalidated (nothing was
+# handed to a store; the statement ties invalidation to the apply) - either behaviour is accepted.
+CAP_VARIANTS = ["absent", "noncallable", "nostore", "nokey"]
+
+
+def cap_alphabet(entry, thorough):
+    """-> (base letters, capability letters).  Base = a small slice of the main alphabet (clean commit, batch fault,
+    partial per-delta fault, kill switch) so that capability turns are interleaved with ordinary ones."""
+    k1 = dkey(D(1))
+    base = [("commit", [], ("ok",)), ("commit", [1], ("ok",)), ("commit", [1], ("batchfail", [])),
+            ("commit", [1, 2], ("batchfail", [k1]))]
+    if entry == "turn":
+        base.append(("kill", [], ("ok",)))
+    variants = CAP_VARIANTS if thorough else CAP_VARIANTS[:3]
+    if entry == "turn":
+        variants = [v for v in variants if v != "nokey"]    # run_turn's stages index state["store"] themselves
+    lists = [[], [1, 2]]
+    caps = [("commit", ids, ("noapi", v)) for v in variants for ids in lists]
+    return base, caps
+
+
+def cap_settings(entry, thorough):
+    shapes = ["both", "cfg", "config"] if entry == "direct" else ["both", "cfg"]
+    for n in (1, 2, 3):
+        for bust in ("on-apply", "none"):
+            for v in (None, "41"):
+                for sh in shapes:
+                    yield {"n": n, "bust": bust, "ns": "default", "ver": v, "shape": sh, "ids": [1, 1]}
+
+
+def cap_histories(entry, thorough):
+    """every history of <=2 (thorough: <=3) turns over base+capability letters holding >=1 capability letter"""
+    base, caps = cap_alphabet(entry, thorough)
+    alpha = base + caps
+    for d in range(1, (3 if thorough else 2) + 1):
+        for h in itertools.product(alpha, repeat=d):
+            if any(x[2][0] == "noapi" for x in h):
+                yield [list(x) for x in h]
 
 
 def turn_alphabet(max_n, with_kill):
@@ -234,6 +299,8 @@ def _ns_size(cm, ns):
 
 def _expected_calls(ids, plan):
     keys = [dkey(D(i)) for i in ids]
+    if plan[0] == "noapi":
+        return [[]]      # the recording store is not reachable through a batch API on this turn
     if plan[0] in ("ok", "okquiet"):
         return [[(keys, "ok")]] + ([[]] if not keys else [])
     exp = [(keys, "raise")] + [([k], "raise" if k in plan[1] else "ok") for k in keys]
@@ -260,8 +327,11 @@ def run_history(case, scratch):
     ex.activate()
     old_t4 = orch_core.t4_filter
     shape_cls = "cfg-only" if st["shape"] == "cfg" else "any"
+    cap = {"cls": None}     # store capability class of the turn being judged (None = store with the batch API)
 
     def bad(clause, what):
+        if cap["cls"]:
+            clause = "%s[store=%s]" % (clause, cap["cls"])
         out.append(("%s:%s:ctx-shape=%s" % (entry, clause, shape_cls),
                     "%s [entry=%s settings=%s history=%s]" % (what, entry, json.dumps(st), json.dumps(hist))))
 
@@ -283,7 +353,12 @@ def run_history(case, scratch):
         snap_file = os.path.join(ex.snap_dir, "state_%s.json" % agent)
         id0, stride = st.get("ids", [1, 1])
         for turn, (kind, ids, plan) in ((id0 + i * stride, h) for i, h in enumerate(hist)):
-            plan = tuple(plan) if plan[0] in ("ok", "okquiet") else ("batchfail", list(plan[1]))
+            if plan[0] == "noapi":
+                plan = ("noapi", str(plan[1]))
+            else:
+                plan = tuple(plan) if plan[0] in ("ok", "okquiet") else ("batchfail", list(plan[1]))
+            noapi = plan[1] if plan[0] == "noapi" else None
+            cap["cls"] = None if noapi is None else ("no-batch-api" if noapi in ("absent", "noncallable") else "none")
             approved = [D(i) for i in ids]
             store.begin(turn, plan)
             ncalls0 = len(store.calls)
@@ -301,6 +376,15 @@ def run_history(case, scratch):
                              metrics={"counts": {"approved": len(approved)}})
             cfg = cfg_on if kind == "commit" else cfg_off
             ctx = W.make_ctx(cfg, agent, turn, shape=st["shape"])
+            graphs0 = state.get("active_graphs")
+            if noapi in ("absent", "noncallable"):
+                state["store"] = StoreView(store, noapi)
+            elif noapi == "nostore":
+                state["store"] = None
+                state["active_graphs"] = []      # no store, no graphs to walk
+            elif noapi == "nokey":
+                state.pop("store", None)
+                state["active_graphs"] = []
             try:
                 if entry == "direct":
                     res = apply_mod.apply_changes(ctx, state, t4res)
@@ -316,6 +400,9 @@ def run_history(case, scratch):
                 break
             finally:
                 orch_core.t4_filter = old_t4
+                if noapi is not None:
+                    state["store"] = store
+                    state["active_graphs"] = graphs0
             calls = [(c[2], c[3]) for c in store.calls[ncalls0:]]
             ver1 = state.get("version_etag")
             if kind == "kill":
@@ -355,6 +442,8 @@ def run_history(case, scratch):
             for ns in ("t2:semantic", "other:ns", "third:ns"):
                 if eff["bust"] is None and ns in conf:
                     continue    # cache_bust_mode absent: the statement does not say whether busting is on
+                if noapi is not None and eff["bust"] == "on-apply" and ns in conf:
+                    continue    # nothing was handed to a store: invalidating or not is accepted (see CAP_VARIANTS)
                 want_empty = eff["bust"] == "on-apply" and ns in conf
                 if want_empty and _ns_size(cm, ns) != 0:
                     bad("cache-bust:not-invalidated", "turn %d namespace %s still has %d entries with cache_bust_mode=on-apply (configured namespaces %r)" % (turn, ns, _ns_size(cm, ns), conf))
@@ -364,6 +453,7 @@ def run_history(case, scratch):
                 if _count_lines(os.path.join(ex.log_dir, "t4.jsonl")) != t4_lines0 + 1 or \
                         _count_lines(os.path.join(ex.log_dir, "apply.jsonl")) != ap_lines0 + 1:
                     bad("records", "turn %d committed but t4/apply records not emitted exactly once" % turn)
+        cap["cls"] = None
         # never applied twice
         seen = set()
         for t, k in store.applied:
@@ -377,6 +467,8 @@ def run_history(case, scratch):
                 continue
             for i in ids:
                 d = D(i)
+                if plan[0] == "noapi":
+                    continue
                 if plan[0] in ("ok", "okquiet") or dkey(d) not in plan[1]:
                     k = (d.target_kind, d.target_id, d.attr)
                     expw[k] = expw.get(k, 0.0) + float(d.delta)
@@ -401,7 +493,9 @@ def _worker(chunk, st: Stats, scratch):
                                tuple(case["settings"].get("absent") or ())))
         if case["settings"].get("absent"):
             st.add("histories_key_absent")
-        if any(h[2][0] == "batchfail" or h[0] == "kill" for h in case["history"]):
+        if any(h[2][0] == "noapi" for h in case["history"]):
+            st.add("histories_store_capability")
+        if any(h[2][0] in ("batchfail", "noapi") or h[0] == "kill" for h in case["history"]):
             st.add("nontrivial")
         st.distinct("outcomes", (case["entry"], final[0], final[2], tuple(sorted(s for s, _ in res))))
         for sig, what in res:
@@ -445,6 +539,12 @@ def cases(thorough):
         for d in range(1, 3):
             for h in itertools.product(a_turn, repeat=d):
                 out.append({"entry": "turn", "settings": sett, "history": [list(x) for x in h]})
+    # store capability leg (see CAP_VARIANTS)
+    for entry in ("direct", "turn"):
+        hs = list(cap_histories(entry, thorough))
+        for sett in cap_settings(entry, thorough):
+            for h in hs:
+                out.append({"entry": entry, "settings": sett, "history": h})
     return out
 
 
@@ -457,18 +557,29 @@ def run(run: Run) -> None:
                 "plus key-presence shapes of the t4 section (keys removed after validation: cache.namespaces | whole cache "
                 "section emptied | cache section absent | snapshot_every_n_turns | cache_bust_mode | enabled; %s) x histories "
                 "of <=2 turns on both entry points, expected behaviour = that of the validated normal form of the section; "
-                "non-trivial = history with a store fault or a kill-switch turn"
+                "plus store capability of a committed turn (store is a read-only view without apply_deltas | carries a "
+                "non-callable apply_deltas | state's store is None%s) x approved in [],[d1,d2], every history of <=%d turns "
+                "over these letters + {clean commit, batch fault, partial per-delta fault, kill switch} holding >=1 such turn "
+                "x cadence{1,2,3} x bust x initial version x ctx shape on both entry points; "
+                "non-trivial = history with a store fault, a kill-switch turn or a turn whose store lacks the batch API"
                 % (3 if run.thorough else 2,
-                   "every combination" if run.thorough else "each single key path + everything absent"))
+                   "every combination" if run.thorough else "each single key path + everything absent",
+                   " | state has no store key" if run.thorough else "", 3 if run.thorough else 2))
     run.notes["histories_total"] = len(cs)
     run.notes["key_presence_shapes"] = {e: len(absent_menu(e, run.thorough)) for e in ("direct", "turn")}
     run.notes["histories_key_absent"] = sum(1 for c in cs if c["settings"].get("absent"))
+    run.notes["histories_store_capability"] = sum(1 for c in cs if any(h[2][0] == "noapi" for h in c["history"]))
+    run.notes["store_capability_letters"] = {e: len(cap_alphabet(e, run.thorough)[1]) for e in ("direct", "turn")}
     run.pmap(_worker, cs, extra=(run.scratch,))
     run.assume("a t4 section lacking a key denotes the configuration configs.validate.validate_config normalises it to "
                "(documented defaults: namespaces [t2:semantic], snapshot every turn, T4 enabled); with cache_bust_mode "
                "absent the cache clauses are not decided (validator default on-apply, engine fallback none)")
     run.assume("the t4 section itself and t4.snapshot_dir are always present (snapshots must stay inside the scratch dir)")
     run.assume("store double is all-or-nothing per call (hypothesis stated in the property)")
+    run.assume("on a committed turn whose store offers no callable apply_deltas (or is None) the version, cadence, "
+               "no-abort, record and no-over-invalidation clauses are decided; whether the configured namespaces are "
+               "invalidated on such a turn is not (nothing was handed to a store); with store None the turn runs "
+               "with no active graphs")
     run.assume("approved lists are given in canonical target order, as the meta-filter emits them")
     run.assume("boot snapshot loading is disabled (state._boot_loaded) so the scripted initial version stands")
 
